@@ -281,9 +281,12 @@ func (o *signalHandler) OnTerminate() {
 	vhook.Emit("signal", o, "terminate", "n", len(signals))
 	o.signalsMutex.Unlock()
 	for _, user := range signals {
+		vhook.Gate("signal.terminate.send", "service", o.serviceID, "object", o.objectID, "user", user.userID, "ep", vhook.ID(user.context.EndPoint()))
 		o.sendTerminate(&user, user.signalID)
+		vhook.Gate("signal.terminate.release", "service", o.serviceID, "object", o.objectID, "user", user.userID, "ep", vhook.ID(user.context.EndPoint()))
 		user.context.EndPoint().RemoveHandler(user.contextID)
 	}
+	vhook.Emit("signal", o, "terminated", "service", o.serviceID, "object", o.objectID, "n", len(signals))
 }
 
 func (o *signalHandler) newHeader(typ uint8, action, id uint32) net.Header {
@@ -295,5 +298,6 @@ func (o *signalHandler) newHeader(typ uint8, action, id uint32) net.Header {
 func (o *signalHandler) Activate(activation Activation) error {
 	o.serviceID = activation.ServiceID
 	o.objectID = activation.ObjectID
+	vhook.Emit("signal", o, "activate", "service", o.serviceID, "object", o.objectID)
 	return nil
 }
